@@ -18,14 +18,28 @@ level("C14",
             "the malformed stream, named zero-drop/off-board/zero-nibble slides under random or all 8 maps; every slide shape x type code 0..10 x on/off-board origin x 8 maps on 3x3/4x4), thorough adds sizes 5..8 and 1e5 positions. "
             "Defect found by this check on the pinned tree and fixed (bb39ff9): TransformMove panicked on a slide without drops and on type codes > SlideDown."))
 level("C15",
-      technique="Lean 4 proof about the list-level canonicalisation algorithm (Spec.canon: the loop of symmetry.Canonical over the rule book) via an abstract theory of canonicalisation under a group action + differential correspondence of both the bit-level model (Tak.canonical) and Spec.canon against the real Canonical (canon/scanon/canonchk ops)",
-      text=("Proved for every board size, every legal game of any length and all eight maps (no sampling), for Spec.canon: canonical_legal_prefix_images (the canonical form exists, has the same length, "
-            "replays legally, and each prefix leads to the image under some map of the position the same prefix of the original leads to); canonical_orbit_invariant (canon n (k•ms) = canon n ms for each of the eight maps); "
-            "canonical_idempotent (canon n out = some out for out = canon n ms). Method: Proofs/CanonAbstract.lean proves the three statements for any game with a group action commuting with its step function and a strict "
-            "preference order whose ties inside an orbit are equalities (invariant: board 0 = tfn•input position; two runs on step-wise images of one game have the same board 0, their transforms differ by a stabiliser "
-            "element of it, and the preferred move of a stabiliser orbit is unique); Proofs/CanonTak.lean instantiates it with C14's step_equivariant and the laws of Sym.state/Sym.raw/preferMove."),
-      note=("Spec.canon tests 'board k still equals board 0' by equality of the list-level image of board 0, where the Go code compares the hashes of eight separately replayed bit boards, and it composes group "
-            "elements where Go composes closures. That the bit-level model Tak.canonical (eight replays through Pos.apply, hash test, TransformMove with int8 arithmetic) computes Spec.canon is NOT proved "
-            "(it needs C01's refinement of Pos.apply, C08's hash = function of board and side to move, and the absence of hash collisions among the eight boards); it is checked on every run: canon (bit-level model vs Go), "
-            "scanon (Spec.canon vs Go) and canonchk (the three clauses evaluated on the real code and on the model) on games biased to stay or become self-symmetric, their eight images, prefixes, double application, "
-            "a malformed stream, and exhaustively on all legal games of <= 2 plies (3x3, 4x4) and 3 plies (3x3) in the quick tier, <= 4 plies on 3x3/4x4 and <= 3 on 5x5 in the thorough tier."))
+      technique="Lean 4 proof about the canonicalisation algorithm of symmetry.Canonical at list level (Spec.canon) via an abstract theory of canonicalisation under a group action, a refinement theorem from the bit-level model (Tak.canonical) to Spec.canon, + differential correspondence of both against the real Canonical (canon/scanon/canonchk ops)",
+      text=("Proved for every board size, every legal game of any length and all eight maps (no sampling), for Spec.canon (the loop of Canonical over the rule book: accumulated transform, scan over the maps whose image of board 0 equals board 0, "
+            "preferMove, replay): canonical_legal_prefix_images (the canonical form exists, has the same length, replays legally, and each prefix leads to the image under some map of the position the same prefix of the original leads to); "
+            "canonical_orbit_invariant (canon n (k•ms) = canon n ms for each of the eight maps); canonical_idempotent (canon n out = some out for out = canon n ms). Method: Proofs/CanonAbstract.lean proves the three statements for any game "
+            "with a group action commuting with its step function and a strict preference order whose ties inside an orbit are equalities (invariant: board 0 = tfn•input position; two runs on step-wise images of one game have the same board 0, "
+            "their transforms differ by a stabiliser element of it, and the preferred move of a stabiliser orbit is unique); Proofs/CanonTak.lean instantiates it with C14's step_equivariant and the laws of Sym.state/Sym.raw/preferMove. "
+            "canonical_refines: on sizes 3..8 the bit-level model Tak.canonical (eight positions replayed through Pos.apply, stabiliser test by Hash(), TransformMove in int8 arithmetic on words built by compose) returns exactly Spec.canon's result "
+            "for every game that has one, under PosFacts2 and NoCollisionAt; canonical_refines_default: for the default games on 3x3..6x6 PosFacts2 is discharged from C01.move_refines, C08.hash_congr and C02.analyze_ne_none "
+            "(piece budget <= 62, so the 64-piece limit cannot be reached), leaving NoCollisionAt as the only assumption; model_canonical_properties combines the four."),
+      note=("On 7x7 and 8x8 canonical_refines stays conditional on PosFacts2 (New/Move keep an invariant, Move accepts exactly the rule-book-legal moves and yields the rule-book successor, positions showing the same board/reserves/ply have the same Hash()) "
+            "because C01's refinement needs the 64-piece stack limit, which only the <= 62-piece games guarantee; and on all sizes on NoCollisionAt (no position showing a different image of a canonical board of a prefix of the game has that board's hash), which no theorem can carry. "
+            "Independently of these, every run checks canon (bit-level model vs Go), scanon (Spec.canon vs Go directly) and canonchk (the three clauses evaluated on the real code and on the model) on games biased to stay or become self-symmetric "
+            "(about a quarter are self-symmetric at ply >= 4, a fifth re-enter symmetry), their eight images, prefixes, double application, a malformed stream, and exhaustively on all legal games of <= 2 plies (3x3, 4x4) and 3 plies (3x3) in the quick tier, "
+            "<= 4 plies on 3x3/4x4 and <= 3 on 5x5 in the thorough tier."))
+# opening-book clause of C04: text to be merged into C04's level by the coordinator
+_book = ("Opening book (Props/C04_book.lean, model Impl/Book.lean of ai/opening.go, random choice = arbitrary oracle within the Int31n contract): book_entries_legal (in a book built without error every entry has a reply, weights are positive, every stored reply is "
+         "rule-book-legal in a rebuilt image of a book-line position with the entry's key), book_contains_images (the hash of each of the eight images of each book-line position with a continuation is a key), book_moves_legal (whenever GetMove answers, "
+         "the move is rule-book-legal in the looked-up position, provided that position does not collide with a different stored image), book_answers_images (for book positions and all their images GetMove answers, no 'not in book', no Int31n panic while weights < 2^31); "
+         "derived from C14 step_equivariant/transformMove_spec under PosFacts (Move sound w.r.t. the rule book and invariant-preserving, along the book lines) and ImageFact (the k-th rebuilt image shows the k-image); book_moves_legal_default: for the default games up to 6x6 and lines without the internal pass move, PosFacts/LinesOk are discharged from C01.move_refines and the piece budget, leaving ImageFact (not proved; exercised by the ssyms op) and the no-collision hypothesis. "
+         "Correspondence: the two built-in books as built by playtak's init() and rebuilt, random books sharing prefixes directly and through a symmetry, malformed lines; all prefix positions under all eight maps looked up, stored replies and weights compared with the model, "
+         "24 seeded real GetMove calls per position must return a stored reply accepted by Move.")
+if "C04" in LEVEL:
+    LEVEL["C04"]["text"] += " " + _book
+else:
+    level("C04", technique="(opening-book clause only) Lean 4 proof over the model of ai/opening.go + differential correspondence (book/realbook/bookget ops)", text=_book)
